@@ -121,6 +121,10 @@ fn case<S: Shape>(r: &mut Rng, acc: &mut Acc, index: u64, verbose: bool) {
                 acc.count("skipped_inexact_time_for_other_component", 1);
                 continue;
             }
+            if !spec.exact_at(t) {
+                acc.count("skipped_inexact_instant_of_non_dyadic_cycle", 1);
+                continue;
+            }
             let fr = &frs[f];
             if fr.is_empty() {
                 continue;
